@@ -166,7 +166,21 @@ pub trait OperandHandler {
                 ident_provider,
                 ident_kind,
             );
+        } else if is_literal_only_sum(operand) {
+            // a literal-only sum ('a' + 'b') is not instrumented itself but it is still an operand:
+            // hand it to the hook as it is (it has no side effects, so it needs no temporary)
+            arguments.push(ident_provider.get_expr_or_spread(operand, ident_kind));
         }
+    }
+}
+
+pub fn is_literal_only_sum(expr: &Expr) -> bool {
+    match expr {
+        Expr::Lit(_) => true,
+        Expr::Bin(binary) if binary.op == BinaryOp::Add => {
+            is_literal_only_sum(&binary.left) && is_literal_only_sum(&binary.right)
+        }
+        _ => false,
     }
 }
 
